@@ -130,10 +130,10 @@ def load_more():
     # further extractors live in sibling modules to keep this file readable
     here = os.path.dirname(os.path.abspath(__file__))
     sys.path.insert(0, here)
-    for modname in ("x_consts", "x_layouts", "x_governance"):
-        if os.path.exists(os.path.join(here, modname + ".py")):
-            mod = __import__(modname)
-            EXTRACTORS.extend(mod.EXTRACTORS)
+    import glob
+    for f in sorted(glob.glob(os.path.join(here, "x_*.py"))):
+        mod = __import__(os.path.basename(f)[:-3])
+        EXTRACTORS.extend(mod.EXTRACTORS)
 
 def main():
     load_more()
